@@ -56,7 +56,8 @@ impl Filter for DateInTzFilter {
             })?;
 
         let date_str = date
-            .with_offset(offset)
+            .checked_with_offset(offset)
+            .ok_or_else(|| invalid_input("Date is out of range in the requested timezone"))?
             .format(args.format.as_str())
             .map_err(|_err| invalid_input("Invalid format string"))?;
         Ok(Value::scalar(date_str))
